@@ -271,13 +271,15 @@ class Interp(object):
             return True
         return out if rec(0, state) else None
 
-    def _comprehension_truths(self, comp, state, trace):
+    def _comprehension_truths(self, comp, state, trace, stop_at=None):
         '''truth of the element expression of a comprehension for every abstract element (bound in a state of its own); None when
         an iterable is not understood'''
         out = []
 
         def rec(k, st_):
             if k == len(comp.generators):
+                if stop_at is not None and out and out[-1] is stop_at:
+                    return True        # any() / all() stop at the first deciding element: later ones are not evaluated
                 out.append(bool(self.cond(comp.elt, st_, trace)))
                 return True
             g = comp.generators[k]
@@ -388,10 +390,18 @@ class Interp(object):
                     return False
                 left = right
             return True
+        if isinstance(node, ast.Call) and self.helpers is not None and self.helpers(node) is not None:
+            # a newly introduced helper used as a condition: its body is interpreted in place, its result is the truth value
+            res = self.call_helper(self.helpers(node), self.subst(node, state) if self.symbolic else node, state, trace)
+            if isinstance(res, bool):
+                return res
+            if res is None:
+                return False
+            return self.cond(res, state, trace)
         if isinstance(node, ast.Call) and isinstance(node.func, ast.Name) and node.func.id in ('any', 'all') and len(node.args) == 1 and \
                 not node.keywords and isinstance(node.args[0], (ast.GeneratorExp, ast.ListComp)):
             # any(c for x in X) / all(..): the element condition under every abstract element of the iterable
-            vals = self._comprehension_truths(node.args[0], state, trace)
+            vals = self._comprehension_truths(node.args[0], state, trace, stop_at=(node.func.id == 'any'))
             if vals is not None:
                 return any(vals) if node.func.id == 'any' else all(vals)
         if isinstance(node, ast.Name) and node.id in state.get('bvars', {}):
